@@ -335,6 +335,9 @@ impl Array4 {
             .map_err(insufficient_data("aux_count"))?;
 
         // Read packed 4-bit byte array
+        if cursor.remaining() < num_bytes {
+            return Err(Error::insufficient_data("data"));
+        }
         let mut data = vec![0u8; num_bytes];
         // The register bytes are present in compact and updatable images alike.
         cursor
